@@ -67,6 +67,16 @@ def special_cases(rng):
         add(name, "identity and zero operands", f, [eye, two], [0, 1])
         add(name, "zero matrix operand", f, [onp.zeros((2, 2)), two], [0, 1])
         add(name, "vector operands with zeros", f, [onp.array([0.0, 1.0]), onp.array([2.0, 0.0])], [0, 1])
+    # gauge-invariant functions of eigenvectors (well separated spectrum)
+    asym = onp.array([[2.0, 0.3, -0.1], [0.2, -1.0, 0.4], [0.1, -0.2, 4.0]])
+    symm = onp.array([[2.0, 0.3, -0.1], [0.3, -1.0, 0.4], [-0.1, 0.4, 4.0]])
+    add("linalg.eig", "|eigenvectors|^2", (lambda m, a: m.abs(m.linalg.eig(a)[1]) ** 2), [asym], [0])
+    add("linalg.eig", "eigenvalues", (lambda m, a: m.real(m.linalg.eig(a)[0])), [asym], [0])
+    add("linalg.eigh", "eigenvectors^2", (lambda m, a: m.linalg.eigh((a + a.T) / 2)[1] ** 2), [symm], [0])
+    add("linalg.eigh", "projector", (lambda m, a: (lambda w, v: m.dot(v[:, :1], v[:, :1].T))(*m.linalg.eigh((a + a.T) / 2))), [symm], [0])
+    add("linalg.svd", "U diag(s) Vt", (lambda m, a: (lambda u, sv, vt: m.dot(u * sv, vt))(*m.linalg.svd(a, full_matrices=False))), [asym[:2]], [0])
+    add("linalg.svd", "|U|^2 and |V|^2", (lambda m, a: (lambda u, sv, vt: m.concatenate([m.ravel(u ** 2), m.ravel(vt ** 2)]))(*m.linalg.svd(a, full_matrices=False))), [asym[:2]], [0])
+    add("linalg.qr", "R^2", (lambda m, a: m.linalg.qr(a)[1] ** 2), [asym], [0])
     add("linalg.solve", "identity", (lambda m, a, b: m.linalg.solve(a, b)), [eye * 2.0, onp.array([1.0, 0.0])], [0, 1])
     add("linalg.inv", "identity", (lambda m, a: m.linalg.inv(a)), [eye], [0])
     add("linalg.det", "identity", (lambda m, a: m.linalg.det(a)), [eye], [0])
@@ -151,11 +161,20 @@ def main():
         except Exception:
             dist("first-order-error")
             continue
+        jv_numeric = False
         try:
             jv0 = onp.asarray(make_jvp(lambda z: F(anp, z))(z0)(v)[1], float)
         except Exception:
-            jv0 = None                       # no forward rule: only the reverse-over-reverse sequence is available
+            # no forward rule: J v from a Richardson difference quotient of the NumPy function
             dist("no-forward-rule")
+            try:
+                def cdF(d, h):
+                    return (onp.asarray(F(onp, z0 + h * d), float) - onp.asarray(F(onp, z0 - h * d), float)) / (2 * h)
+                e1, e2 = (4 * cdF(v, 1e-3) - cdF(v, 2e-3)) / 3, (4 * cdF(v, 5e-4) - cdF(v, 1e-3)) / 3
+                jv0 = e2 if onp.all(onp.isfinite(e2)) and onp.max(onp.abs(e1 - e2)) <= 1e-7 * (1 + onp.max(onp.abs(e2))) else None
+                jv_numeric = jv0 is not None
+            except Exception:
+                jv0 = None
         if not onp.all(onp.isfinite(g0)) or (jv0 is not None and not onp.all(onp.isfinite(jv0))):
             continue
         out["n"] += 1
@@ -171,9 +190,8 @@ def main():
                 if sname == "fit":
                     vjpF = make_vjp(lambda z: F(anp, z))(z0)[0]
                     Hv_true = onp.asarray(vjpF(jv0), float)
-                    ju = onp.asarray(make_jvp(lambda z: F(anp, z))(z0)(u)[1], float)
-                    Hu_true = onp.asarray(vjpF(ju), float)
-                    tol = 1e-9
+                    Hu_true = None
+                    tol = 2e-5 if jv_numeric else 1e-9
                 else:
                     def gnum(z):
                         return onp.asarray(grad(s_ag)(z), float)
@@ -185,7 +203,6 @@ def main():
                         dist("lin:not-smooth-here")
                         continue
                     Hv_true = est[1]
-                    Hu_true = (4 * cd(u, 5e-4) - cd(u, 1e-3)) / 3
                     tol = 2e-5
             except Exception:
                 dist(sname + ":truth-unavailable")
@@ -214,6 +231,21 @@ def main():
             except Exception:
                 ff = None
                 dist("%s:fwd-over-fwd:raises" % sname)
+            # the library's own second-order operators: they work wherever grad-of-grad works, and agree with it
+            if "rev-over-rev" in got and z0.size <= 12:
+                from autograd import hessian, hessian_vector_product, make_hvp, hessian_tensor_product
+                for on, th in (("hessian_vector_product", lambda: hessian_vector_product(s_ag)(z0, v)),
+                               ("hessian_tensor_product", lambda: hessian_tensor_product(s_ag)(z0, v)),
+                               ("make_hvp", lambda: make_hvp(s_ag)(z0)[0](v)),
+                               ("hessian", lambda: onp.dot(hessian(s_ag)(z0), v))):
+                    try:
+                        got[on] = onp.asarray(th(), float)
+                        dist("%s:%s:computed" % (sname, on))
+                    except Exception as ex:
+                        dist("%s:%s:RAISES" % (sname, on))
+                        out["bad"].append({"primitive": c.prim, "configuration": c.tag, "scalarisation": sname, "sequence": on,
+                                           "what": "grad of grad is available for this configuration but %s raises %s: %s" % (on, type(ex).__name__, str(ex)[:80]),
+                                           "z0": z0.tolist(), "site": {"primitive": c.prim, "kind": "second-order"}})
             problems = []
             for qn, hv in got.items():
                 if hv.shape != Hv_true.shape:
